@@ -12,8 +12,8 @@ use chumsky::input::{Input, IoInput, IterInput, Stream, ValueInput};
 use chumsky::span::SimpleSpan;
 use unicode_segmentation::UnicodeSegmentation;
 
-use crate::ast::*;
-use crate::build::{CountIter, PULLS};
+use chumsky_verif_harness::ast::*;
+use chumsky_verif_harness::build::{CountIter, PULLS};
 
 fn replay<'src, I>(input: I, sched: &[usize], tok: impl Fn(I::Token) -> u32) -> String
 where
@@ -121,16 +121,16 @@ fn in_line(toks: &[&str], w: &mut dyn Write) {
             }
             "iomap" => {
                 let bytes: Vec<u8> = chars.iter().map(|&c| c as u32 as u8).collect();
-                let f: fn(u8) -> (char, SimpleSpan) = crate::build::io_pair;
+                let f: fn(u8) -> (char, SimpleSpan) = chumsky_verif_harness::build::io_pair;
                 replay(IoInput::new(std::io::Cursor::new(bytes)).map(SimpleSpan::from(200..200), f), &sched, |c| c as u32)
             }
             "mapped" => {
-                let (v, eoi) = crate::run::mapped_tokens(ts, 1);
-                let f: fn(&(char, SimpleSpan)) -> (&char, &SimpleSpan) = crate::build::proj_pair;
+                let (v, eoi) = chumsky_verif_harness::run::mapped_tokens(ts, 1);
+                let f: fn(&(char, SimpleSpan)) -> (&char, &SimpleSpan) = chumsky_verif_harness::build::proj_pair;
                 replay(Input::map(&v[..], eoi, f), &sched, |c| c as u32)
             }
             "iter" => {
-                let (v, eoi) = crate::run::mapped_tokens(ts, 1);
+                let (v, eoi) = chumsky_verif_harness::run::mapped_tokens(ts, 1);
                 replay_maybe(IterInput::new(v.into_iter(), eoi), &sched, |c: char| c as u32)
             }
             other => format!("ERR unknown-kind-{other}"),
@@ -178,7 +178,7 @@ fn gr_line(toks: &[&str], w: &mut dyn Write) {
 }
 
 pub fn main() {
-    crate::run::install_panic_hook();
+    chumsky_verif_harness::run::install_panic_hook();
     let stdin = std::io::stdin();
     let stdout = std::io::stdout();
     let mut w = std::io::BufWriter::new(stdout.lock());
